@@ -61,7 +61,20 @@ VGen(rec) ==
        ELSE IF rec.isds = 1 /\ rec.nbr # Len(Rk) THEN <<"viol", "C20:number-of-rankings">>
        ELSE <<"ok", "generated">>
 
+\* very large n (beyond what TLC can hold as sets): the harness logs counts only -- number of rankings, of buckets,
+\* of empty buckets, total size of the buckets, number of distinct elements, smallest and largest element
+VGenBig(rec) ==
+    LET n == rec.n  m == rec.m  c == rec.complete = 1 IN
+    IF rec.out # "ok" THEN <<"viol", "C20:undocumented-failure">>
+    ELSE IF rec.emptybuckets # 0 THEN <<"viol", "C20:buckets">>
+    ELSE IF \E k \in DOMAIN rec.sizes : rec.sizes[k] # rec.distinct[k] THEN <<"viol", "C20:buckets">>
+    ELSE IF \E k \in DOMAIN rec.sizes : rec.minelem[k] < 0 \/ rec.maxelem[k] > n - 1 THEN <<"viol", "C20:elements">>
+    ELSE IF c /\ \E k \in DOMAIN rec.sizes : rec.distinct[k] # n THEN <<"viol", "C20:complete">>
+    ELSE IF c /\ Len(rec.sizes) # m THEN <<"viol", "C20:number-of-rankings">>
+    ELSE <<"ok", "generated-big">>
+
 Verdict(rec) == CASE rec.op = "move" -> VMove(rec) [] rec.op = "walk" -> VWalk(rec) [] rec.op = "gen" -> VGen(rec)
+                  [] rec.op = "genbig" -> VGenBig(rec)
 
 Init == i = 0 /\ verdict = <<"init", "">>
 Pick == i = 0 /\ \E j \in DOMAIN Trace : i' = j /\ verdict' = <<"pending", "">>
